@@ -343,8 +343,15 @@ func (a *List) M__rmul__(other Object) (Object, error) {
 	return a.M__mul__(other)
 }
 
+// In-place repetition: the list object itself changes, so that every
+// reference to it sees the result (l *= n is not l = l * n)
 func (a *List) M__imul__(other Object) (Object, error) {
-	return a.M__mul__(other)
+	res, err := a.M__mul__(other)
+	if err != nil || res == NotImplemented {
+		return res, err
+	}
+	a.Items = res.(*List).Items
+	return a, nil
 }
 
 // Check interface is satisfied
